@@ -619,6 +619,126 @@ Definition parse (s : string) : parse_result := parse_tokens (lex L s).
 
 End WithLib.
 
+(* ------------------------------------------------------------------ *)
+(* wf_path: the image of the parser ("what Parse can return"). *)
+
+Definition is_accessor_step (s : step) : bool :=
+  match s with
+  | SKey _ | SConst CAnyKey | SConst CAnyArray | SAny _ _ | SMeth _ | SDecimal _ _
+  | SDt _ _ _ | SIndex _ | SUn UFilter _ => true
+  | _ => false
+  end.
+
+(* a predicate node: what the grammar's "predicate" builds *)
+Definition is_pred_step (s : step) : bool :=
+  match s with
+  | SBin (BAnd | BOr | BEq | BNe | BLt | BGt | BLe | BGe | BStartsWith) _ _ => true
+  | SUn (UNot | UExists | UIsUnknown) _ => true
+  | SRegex _ _ _ => true
+  | _ => false
+  end.
+
+(* sort of a chain: a predicate is a single predicate node without a tail *)
+Definition is_pred_chain (c : chain) : bool :=
+  match c with [s] => is_pred_step s | _ => false end.
+Definition is_expr_chain (c : chain) : bool := negb (is_pred_chain c).
+
+(* head is a primary or an operator node, the rest are accessor steps *)
+Definition chain_shape (c : chain) : bool :=
+  match c with
+  | [] => false
+  | h :: t => negb (is_accessor_step h) && forallb is_accessor_step t
+  end.
+
+(* text produced by the lexer: valid UTF-8 of non-NUL runes *)
+Definition wf_text (s : string) : bool :=
+  let rs := runes_of s in
+  forallb (fun r => valid_rune r && negb (r =? 0)) rs && String.eqb (string_of_runes rs) s.
+
+Definition is_number_chain (c : chain) : bool :=
+  match c with [SInteger _] | [SNumeric _] => true | _ => false end.
+
+Definition lit_int_ok (z : Z) : bool := (- max_int64 <=? z) && (z <=? max_int64).
+
+Section Wf.
+Variable L : GoLib.
+
+(* what must hold of one node, looking at its immediate operands only *)
+Definition step_ok (s : step) : bool :=
+  match s with
+  | SConst _ | SMeth _ => true
+  | SStr t | SVar t | SKey t => wf_text t
+  | SInteger z => lit_int_ok z
+  | SNumeric f => f64_finite f
+  | SBin op l r =>
+      match op with
+      | BAnd | BOr => is_pred_chain l && is_pred_chain r
+      | BStartsWith =>
+          is_expr_chain l && match r with [SStr _] | [SVar _] => true | _ => false end
+      | _ => is_expr_chain l && is_expr_chain r
+      end
+  | SUn op a =>
+      match op with
+      | UNot | UIsUnknown | UFilter => is_pred_chain a
+      | UExists => is_expr_chain a
+      | UPlus | UMinus => is_expr_chain a && negb (is_number_chain a)
+      end
+  | SRegex a pat fl =>
+      is_expr_chain a && wf_text pat && (0 <=? fl) && (fl <? 32) &&
+      ((Z.land fl reWSpace =? 0) || negb (Z.land fl reQuote =? 0)) && regex_ok L pat fl
+  | SDecimal p sc =>
+      match p, sc with
+      | None, Some _ => false
+      | _, _ => match p with Some z => lit_int_ok z | None => true end &&
+                match sc with Some z => lit_int_ok z | None => true end
+      end
+  | SDt op tmpl prec =>
+      match op with
+      | DDate => match tmpl, prec with None, None => true | _, _ => false end
+      | DDateTime => match prec with None => match tmpl with Some t => wf_text t | None => true end | _ => false end
+      | _ => match tmpl with
+             | None => match prec with Some z => (0 <=? z) && (z <=? max_int64) | None => true end
+             | _ => false
+             end
+      end
+  | SAny a b => (0 <=? a) && (a <=? max_uint32) && (0 <=? b) && (b <=? max_uint32)
+  | SIndex subs =>
+      negb (match subs with [] => true | _ => false end) &&
+      forallb (fun ab => is_expr_chain (fst ab) &&
+                         match snd ab with Some c => is_expr_chain c | None => true end) subs
+  end.
+
+(* every node anywhere satisfies P and every chain anywhere satisfies Q *)
+Fixpoint st_all (P : step -> bool) (Q : list step -> bool) (s : step) {struct s} : bool :=
+  let ca := fix ca (c : list step) {struct c} : bool :=
+    match c with [] => true | x :: r => st_all P Q x && ca r end in
+  P s &&
+  match s with
+  | SBin _ l r => Q l && ca l && (Q r && ca r)
+  | SUn _ a => Q a && ca a
+  | SRegex a _ _ => Q a && ca a
+  | SIndex subs =>
+      (fix ss (l : list (list step * option (list step))) : bool :=
+         match l with
+         | [] => true
+         | (a, b) :: r =>
+             Q a && ca a && match b with Some c => Q c && ca c | None => true end && ss r
+         end) subs
+  | _ => true
+  end.
+
+Fixpoint ch_all (P : step -> bool) (Q : list step -> bool) (c : chain) : bool :=
+  match c with [] => true | x :: r => st_all P Q x && ch_all P Q r end.
+
+Definition wf_chain (c : chain) : bool := chain_shape c && ch_all step_ok chain_shape c.
+
+Definition wf_path (p : path) : Prop :=
+  wf_chain (p_root p) = true /\
+  validate_chain (p_root p) 0 false = None /\
+  p_pred p = is_pred_chain (p_root p).
+
+End Wf.
+
 (* Cases found where Go's error MESSAGE (not accept/reject) differs from the
    kind computed here — see tools/parsevec (check.sh prints them as class
    "kind"):
